@@ -68,6 +68,11 @@ def check(prog, ctx):
     ctx.rule('C14.d', 'sample points are affine images of the unit cube: Random_Point is region[i]+u*(region[i+dim]-region[i]) with u from '
              'Sample_Uniform\'s default range [0,1); Vegas x[j]=region[j]+rc*dx[j], dx[j]=region[j+ndim]-region[j]; Miser sub-regions replace one bound by a convex combination', 4)
     ctx.rule('C14.e', 'constants are integrated exactly in form: plain MC returns sum(volume*f)/ncall, Miser returns MC_Volume*average', 2)
+    ctx.rule('C14.g', 'double precision throughout: no local variable or parameter of the integrators (closure of Integrate_MC within the integration module) has type float - '
+             'an accumulator narrowed to float returns constants only to 1e-7 relative, not to rounding', 5)
+    ctx.rule('C14.h', 'the caller\'s region is read-only: the region parameter of Integrate_MC, and every parameter it is forwarded to by reference, is never '
+             'assigned, swapped, resized or handed to a mutating standard function - the hyper-rectangle sampled is the one the caller passed '
+             '(callees that take it by const reference or by value cannot change it)', 1)
     mc = prog.fn(L + 'Integrate_MC')
     cl = closure(prog, mc)
     ctx.notes.append('closure of Integrate_MC: %s' % sorted(f.q for f in cl))
@@ -127,6 +132,8 @@ def check(prog, ctx):
     ctx.holds('C14.a', 'census', mc, '%d objects with static storage in the closure of Integrate_MC (%d functions)' % (nstat, len(cl)))
 
     ctx.sub('point_length', point_length, prog, ctx, cl)
+    ctx.sub('precision', precision, prog, ctx, cl)
+    ctx.sub('region_readonly', region_readonly, prog, ctx, mc)
     ctx.sub('randomness', randomness, prog, ctx, mc, cl)
     ctx.sub('layout', layout, prog, ctx)
     ctx.sub('affine_region', affine_region, prog, ctx, cl)
@@ -743,3 +750,72 @@ def affine_region(prog, ctx, cl):
                              witness={'coefficients': [str(clo), str(chi)], 'reproducer': 'integrate over a box whose lower corner is not 0'},
                              line=e.get('l'))
     ctx.notes.append('affine-region rule: %d assignments combining two region bounds' % n)
+
+
+def precision(prog, ctx, cl):
+    R = 'C14.g'
+    n = 0
+    for fn in cl:
+        if 'Integration' not in str(fn.d.get('file', '')) and not any(t in fn.q for t in ('Integrate', 'Miser', 'Vegas', 'rebin', 'Random_Point', 'MC_Volume')):
+            continue
+        n += 1
+        bad = [(d.get('name'), d.get('ty'), d.get('l')) for d in list(local_decls(fn)) + list(fn.params)
+               if str(d.get('ty', '')).replace('const ', '').replace('&', '').strip() == 'float']
+        if bad:
+            nm, ty, ln = bad[0]
+            ctx.violated(R, fn.name + ':float', fn, '`%s` has type %s (line %s): every value passing through it is rounded to 24 bits, so a constant integrand c comes back as '
+                         'c*(1 +- 6e-8) instead of c to rounding, and sums of ~1e5 terms lose up to 1e-3 of their value' % (nm, ty, ln),
+                         witness={'variable': nm, 'type': ty, 'line': ln}, line=ln)
+        else:
+            ctx.holds(R, fn.name + ':float', fn, 'no float-typed local or parameter')
+    if n == 0:
+        raise AnalysisBroken('no integrator found in the closure of Integrate_MC')
+
+
+def region_readonly(prog, ctx, mc):
+    R = 'C14.h'
+    from ..state import base_ref
+    start = [i for i, p_ in enumerate(mc.params) if str(p_['ty']).replace('const ', '').startswith('std::vector<double>')]
+    if len(start) != 1:
+        raise AnalysisBroken('region parameter of Integrate_MC not identified: %s' % [p_['ty'] for p_ in mc.params])
+    todo = [(mc, start[0])]
+    seen = set()
+    while todo:
+        fn, idx = todo.pop()
+        if (fn.sig, idx) in seen or fn.body is None:
+            continue
+        seen.add((fn.sig, idx))
+        pid = fn.params[idx]['id']
+        pname = fn.params[idx]['name']
+        writes = []
+
+        def is_p(e):
+            b = base_ref(e)
+            return b.get('k') == 'Ref' and b.get('id') == pid
+        for e in all_exprs(fn):
+            k = e.get('k')
+            if k == 'Bin' and e.get('op') in ('=', '+=', '-=', '*=', '/=', '%=') and is_p(e['lhs']):
+                writes.append((e.get('l'), 'assignment `%s`' % show(e)[:80]))
+            elif k == 'Un' and e.get('op') in ('++', '--') and is_p(e['e']):
+                writes.append((e.get('l'), '`%s`' % show(e)[:80]))
+            elif k == 'Call':
+                cc = e.get('callee') or {}
+                if e.get('kind') == 'method' and e.get('obj') is not None and is_p(e['obj']) and strip_casts(e['obj']).get('k') == 'Ref' and not cc.get('const') \
+                        and cc.get('name') not in ('begin', 'end', 'operator[]', 'at', 'front', 'back', 'data'):
+                    writes.append((e.get('l'), 'mutating call `%s`' % show(e)[:80]))
+                mut = set(cc.get('mutrefs', []))
+                for i, a in enumerate(e.get('args', [])):
+                    if not is_p(a):
+                        continue
+                    g = prog.by_sig(cc.get('sig')) if cc.get('inrepo') else None
+                    if g is not None:
+                        if strip_casts(a).get('k') == 'Ref' and i < len(g.params) and ('&' in str(g.params[i]['ty']) and not str(g.params[i]['ty']).startswith('const')):
+                            todo.append((g, i))
+                    elif i in mut:
+                        writes.append((e.get('l'), 'passed to %s as a mutable reference: `%s`' % (cc.get('q') or cc.get('name'), show(e)[:80])))
+        if writes:
+            ln, what = writes[0]
+            ctx.violated(R, '%s:%s' % (fn.name, pname), fn, 'the caller\'s region `%s` is modified (%s, line %s): the integrand is then sampled in a box that is not the one requested, '
+                         'and the caller\'s vector is changed behind its back' % (pname, what, ln), witness={'line': ln, 'write': what}, line=ln)
+        else:
+            ctx.holds(R, '%s:%s' % (fn.name, pname), fn, 'never written in this function')
